@@ -99,6 +99,8 @@ class SimNet:
                 self.last_delivery = max(self.last_delivery, now + lat)
                 if lat <= 0:
                     self.loop.call_soon(self._deliver, dst, data, src, multicast)
+                elif hasattr(self.loop, "call_at_ranked"):
+                    self.loop.call_at_ranked(now + lat, 0, self._deliver, dst, data, src, multicast, fifo=True)
                 else:
                     self.loop.call_later(lat, self._deliver, dst, data, src, multicast)
 
